@@ -199,7 +199,7 @@ def format_rule(F, G, rep):
     if pieces and len(pieces) == 2 and pieces[0] == ("lit", "xxh3:") and pieces[1][0] == "arg":
         a = pieces[1][1]
         zero16 = a.get("width") == 16 and (a.get("zero") or (a.get("fill") == "0" and a.get("align") == ">")) and not a.get("alternate") and not a.get("plus") and a.get("precision") is None
-        e = strip(a.get("expr") or {})
+        e = tir.LetEnv(b["tir"]["value"]).resolve(a.get("expr") or {})      # `let digest = hasher.digest();` formatted by value
         dig = e.get("k") == "MethodCall" and (declared(e) or "").endswith("Xxh3::digest") and e.get("ty") == "u64"
         ok = a.get("trait") == "lower_hex" and zero16 and dig
         desc = {k: v for k, v in a.items() if k != "expr"}
@@ -219,6 +219,23 @@ def format_rule(F, G, rep):
     if db:
         e = L.strip_try(db["tir"]["value"])
         ok = e.get("k") == "MethodCall" and e["method"] == "map" and (strip(e["args"][0]).get("path") or "") == "io::format_hash" and tir.place(e["recv"]) == "self.hasher"
+        if not ok and e.get("k") == "MethodCall" and e["method"] == "map" and tir.place(e["recv"]) == "self.hasher" and strip(e["args"][0]).get("k") == "Closure":
+            cl = strip(e["args"][0])
+            cb = L.strip_try(cl["body"])
+            ok = cb.get("k") == "Call" and declared(cb) == "io::format_hash" and len(cl["params"]) == 1 and strip(cb["args"][0]).get("id") == cl["params"][0].get("id")
+        if not ok and e.get("k") == "Match" and tir.place(e["scrut"]) == "self.hasher" and len(e["arms"]) == 2:
+            # match self.hasher { Some(h) => Some(format_hash(h)), None => None }
+            good = 0
+            for a in e["arms"]:
+                p_, body = a["pat"], L.strip_try(a["body"])
+                while p_.get("k") == "Ref":
+                    p_ = p_["pat"]
+                if p_.get("k") == "TupleStruct" and (p_.get("path") or "").endswith("Some") and p_["pats"][0].get("k") == "Bind":
+                    inner = L.strip_try(body["args"][0]) if body.get("k") == "Call" and (declared(body) or "").endswith("Some") and len(body["args"]) == 1 else {}
+                    good += inner.get("k") == "Call" and declared(inner) == "io::format_hash" and strip(inner["args"][0]).get("id") == p_["pats"][0]["id"]
+                else:
+                    good += body.get("k") == "Path" and (body.get("path") or "").endswith("None")
+            ok = good == 2
     rep.ob("format.digest", ok, HR_DIGEST, "map", "into_digest must be hasher.map(format_hash) (None when hashing was not requested or a seek happened)")
 
 
